@@ -12,6 +12,17 @@ Clause 2 (changed tree): pairs (T_old, T_new) where T_new is T_old with ONE chan
                        valid, in-range value of a visible option and differs from T_new's default; mismatch records for
                        exactly the options whose stored default differs (visible ones).
    Default-marked entries of promptless options never influence anything (they are part of f but not of f').
+   Choice trees: `choice` (conditional default, one conditionally visible member) and `choice_gate` (default = the MIDDLE
+   member, every member unconditional, an unused switch G): the menu gates a member / the choice by a dependency or a prompt
+   condition and moves the tree's default to a LATER member, so that a stored selection which has become invisible (or is
+   visible only after a later edit) must be ignored in favour of a default that is NOT the first visible member.
+
+Load histories (change `none` and the changes that ADD an option -- LOAD_HISTORY_CHANGES): one instance of T_new performs
+   load(g); [merge(m, replace=False, is_main_sdkconfig=False -- thorough: also True)]; load(f); E
+   g written by the tool under T_new, m a one-entry hand-written fragment, f as above (saved under T_old, so it may not mention
+   an option g gave a user value to, while one of its default-marked options has a default that refers to it).  The result is
+   the reference of f alone (fresh instance, f', T_new resp. T_new'), and the last load's mismatch records are those of loading
+   f alone: nothing an earlier load stored survives a replacing load of the main sdkconfig, whatever was merged in between.
 """
 
 from __future__ import annotations
@@ -28,15 +39,23 @@ ID = "C08"
 LEVEL = "model_checking"
 RULE = (
     "base trees x single-change menu (default literal, default condition, range added, dependency added, option added, option "
-    "removed, prompt removed, prompt condition added, choice default changed, set default source added, no change) x files written "
+    "removed, referenced option added, prompt removed, prompt condition added, choice default changed / moved to a later member, "
+    "choice member or choice gated by a dependency / prompt condition, set default source added, no change) x files written "
     "in every configuration reachable by <=2 operations x policies {sdkconfig, kconfig} x every edit sequence of <=2 (quick) / 3 "
-    "(thorough) operations after loading. states = distinct (tree pair, file, policy, edit history); "
+    "(thorough) operations after loading; plus, for `no change` and the option-adding changes, load histories on one instance: "
+    "first file (new tree, <=1 op; <=2 thorough without a merge) x merge in between {none, one-entry fragment per option of the edit alphabet "
+    "(first two, is_main_sdkconfig=False: quick; all, both values of is_main_sdkconfig: thorough), replace=False} x last file "
+    "(replacing) x {no edit, every single edit (with a merge: thorough only)}. "
+    "states = distinct (tree pair, file, policy, edit history) resp. (tree pair, first file, merge, last file, policy, edit); "
     "distinct_nontrivial = distinct (tree pair, file) in which at least one default-marked entry disagrees with the new tree."
 )
 ASSUMPTIONS = [
     "T_new' (source-level statement of `keeps the stored value`) is computed by a fixpoint: load f' without markers on T', patch the default of every "
     "visible prompted option whose valid, in-range stored value differs from its value, repeat",
     "mismatch records are compared as the set of option / choice names in DefaultValuesArea.changed_defaults / changed_choices",
+    "the merge fragment between two replacing loads is a single unmarked assignment of an option of the new tree; a merge AFTER the last replacing load is not explored "
+    "(the property speaks about loading a file the tool wrote, not about what a later merge adds)",
+    "a stored selection that is invisible when the file is loaded is ignored for good: the reference never re-adopts it when a later edit makes the member visible",
 ]
 
 
@@ -53,6 +72,7 @@ def base_trees() -> Iterator[Tuple[str, Program]]:
         Choice(prompt="c", defaults=[("M2", S("A"))], children=[Cfg("M1", "bool", prompt="m1"), Cfg("M2", "bool", prompt="m2"), Cfg("M3", "bool", prompt="m3", prompt_cond=S("A"))]),
         Cfg("X", "hex", prompt="x", defaults=[(L("0x10"), S("M2")), (L("0x20"), None)]),
     ]))
+    yield gate_tree()
     yield rev_tree()
     yield multidef_tree()
     yield strname_tree()
@@ -61,6 +81,17 @@ def base_trees() -> Iterator[Tuple[str, Program]]:
         Cfg("X", "bool", prompt="x", defaults=[(L("y"), S("A"))]),
         Menu(title="m", depends=[S("X")], children=[Cfg("Y", "float", prompt="y", defaults=[(L("1.5"), None)]), Cfg("Z", "bool", prompt="z", defaults=[(L("y"), None)])]),
         Cfg("S", "bool", prompt="s", selects=[("X", None)]),
+    ]))
+
+
+def gate_tree() -> Tuple[str, Program]:
+    # a choice whose default is its MIDDLE member, every member unconditional, next to a switch (default n) nothing uses yet:
+    # the changes gate members / the choice by the switch and move the default to a LATER member, so that `the tree's default`
+    # and `the first visible member` are different members when a stored selection has to be ignored
+    return ("choice_gate", Program(children=[
+        Cfg("G", "bool", prompt="g"),
+        Choice(prompt="c", defaults=[("M2", None)], children=[Cfg("M1", "bool", prompt="m1"), Cfg("M2", "bool", prompt="m2"), Cfg("M3", "bool", prompt="m3")]),
+        Cfg("X", "int", prompt="x", defaults=[(L("1"), S("M1")), (L("2"), S("M2")), (L("3"), None)]),
     ]))
 
 
@@ -115,6 +146,10 @@ def changes(tree: str, p: Program) -> Iterator[Tuple[str, Program]]:
         q = copy.deepcopy(p); find(q, "P").defaults = [(L("9"), None)]; yield ("promptless_default_changed", q)
         q = copy.deepcopy(p); find(q, "A").wsets.append(("X", L("8"), None)); yield ("set_default_source_added", q)
         q = copy.deepcopy(p); find(q, "H").defaults = [(L('"new hd"'), None)]; yield ("hidden_default_changed", q)
+        # an option added that an EXISTING option's default condition refers to (the defaults are what they were while the
+        # new option is at its default): files saved under the old tree do not mention it at all
+        q = copy.deepcopy(p); q.children.insert(0, Cfg("LV", "int", prompt="lv", defaults=[(L("3"), None)]))
+        find(q, "X").defaults = [(L("7"), S("A")), (L("5"), Rel("=", S("LV"), L("3"))), (L("6"), None)]; yield ("referenced_option_added", q)
         # an option removed and re-added under the same name with another type (bool -> int)
         q = copy.deepcopy(p); a = find(q, "A"); a.type = "int"; a.defaults = [(L("0"), None)]; yield ("removed_and_readded_as_int", q)
     elif tree == "reversed":
@@ -135,6 +170,25 @@ def changes(tree: str, p: Program) -> Iterator[Tuple[str, Program]]:
         q = copy.deepcopy(p); kgen.choices(q)[0].children.append(Cfg("M4", "bool", prompt="m4")); yield ("member_added", q)
         q = copy.deepcopy(p); find(q, "X").defaults[0] = (L("0x11"), S("M2")); yield ("default_literal", q)
         q = copy.deepcopy(p); kgen.choices(q)[0].prompt_cond = S("A"); yield ("choice_prompt_condition_added", q)
+        # the stored selection (M2 whenever A = y) is invisible under the new tree exactly where it was stored ...
+        q = copy.deepcopy(p); find(q, "M2").depends.append(Not(S("A"))); yield ("member_dependency_added", q)
+        # ... while the tree's default is a LATER member than the first visible one
+        q = copy.deepcopy(p); find(q, "M2").depends.append(Not(S("A"))); kgen.choices(q)[0].defaults = [("M3", S("A"))]; yield ("member_dependency_added_default_to_later_member", q)
+        q = copy.deepcopy(p); find(q, "M2").prompt_cond = Not(S("A")); kgen.choices(q)[0].defaults = [("M3", S("A"))]; yield ("member_prompt_condition_added_default_to_later_member", q)
+    elif tree == "choice_gate":
+        for how in ("dependency", "prompt_condition"):
+            for member in ("M1", "M2"):
+                for dflt in ("M2", "M3"):
+                    q = copy.deepcopy(p)
+                    if how == "dependency":
+                        find(q, member).depends.append(S("G"))
+                    else:
+                        find(q, member).prompt_cond = S("G")
+                    kgen.choices(q)[0].defaults = [(dflt, None)]
+                    yield (f"member_{member}_{how}_added_default_{dflt}", q)
+        q = copy.deepcopy(p); kgen.choices(q)[0].defaults = [("M3", None)]; yield ("choice_default_to_later_member", q)
+        q = copy.deepcopy(p); find(q, "M2").depends.append(S("G")); kgen.choices(q)[0].defaults = [("M2", S("G")), ("M3", None)]; yield ("member_dependency_added_conditional_defaults", q)
+        q = copy.deepcopy(p); kgen.choices(q)[0].depends.append(S("G")); kgen.choices(q)[0].defaults = [("M3", None)]; yield ("choice_dependency_added_default_to_later_member", q)
     elif tree == "bools":
         q = copy.deepcopy(p); find(q, "X").defaults = [(L("n"), None)]; yield ("default_literal", q)
         q = copy.deepcopy(p); find(q, "A").defaults = [(L("n"), None)]; yield ("upstream_default_changed", q)
@@ -149,9 +203,22 @@ OPS = {
     "strname": [("set", "V", "8"), ("set", "T", "tu"), ("set", "T", "V"), ("set", "U", "n"), ("reset", "T"), ("reset", "V")],
     "multidef": [("set", "C2", "y"), ("set", "C1", "n"), ("set", "C1", "y"), ("set", "X", "33"), ("set", "U", "n"), ("reset", "X"), ("reset", "C1")],
     "ints": [("set", "A", "y"), ("set", "A", "n"), ("set", "X", "3"), ("set", "Y", "8"), ("set", "H", "hu"), ("reset", "X"), ("reset", "A"), ("unset", "Y")],
+    "choice_gate": [("set", "G", "y"), ("set", "G", "n"), ("set", "M1", "y"), ("set", "M3", "y"), ("set", "X", "9"), ("reset", "M1"), ("reset", "G")],
     "choice": [("set", "A", "y"), ("set", "M1", "y"), ("set", "M2", "y"), ("set", "M3", "y"), ("set", "X", "0x33"), ("reset", "M1"), ("reset", "A")],
     "bools": [("set", "A", "n"), ("set", "X", "n"), ("set", "X", "y"), ("set", "Y", "3.5"), ("set", "S", "y"), ("set", "Z", "n"), ("reset", "X"), ("reset", "A")],
 }
+
+
+# operations on options that exist only in the NEW tree of a change (edits after loading, and the configurations the FIRST
+# file of a load history is written in)
+EXTRA_OPS = {
+    ("ints", "referenced_option_added"): [("set", "LV", "4"), ("reset", "LV")],
+    ("ints", "option_added"): [("set", "NEWOPT", "8")],
+    ("choice", "member_added"): [("set", "M4", "y")],
+}
+# changes for which load HISTORIES on one instance are explored (besides `none`): the ones that add an option, i.e. the last
+# file of the history does not mention an option the earlier files of the history (written under the new tree) do mention
+LOAD_HISTORY_CHANGES = {("ints", "referenced_option_added"), ("ints", "option_added"), ("choice", "member_added")}
 
 
 def items(tier: str, seed: int):
@@ -327,8 +394,9 @@ def run_item(item) -> common.Result:
     fn = kgen.render(tnew)
     ops = OPS[tree]
     new_names = {c.name for c in kgen.configs(tnew)}
-    eops = [o for o in ops if o[1] in new_names]
+    eops = [o for o in ops if o[1] in new_names] + EXTRA_OPS.get((tree, change), [])
     files = reachable_files(fo, ops, item["d1"])
+    refs: Dict[str, tuple] = {}
     label0 = f"[{tree}/{change} policy={policy}]"
     for h0, f in files:
         fprime = strip_marked(f)
@@ -346,6 +414,7 @@ def run_item(item) -> common.Result:
         if policy == "kconfig":
             exp_mism = kconfig_mismatches(fn, fprime, marked)
         nontrivial = bool(exp_mism)
+        refs[f] = (ref_files, ref_policy)
         for n in range(item["d2"] + 1):
             for E in itertools.product(eops, repeat=n):
                 r.states += 1
@@ -408,49 +477,100 @@ def run_item(item) -> common.Result:
                                     f"{label0} file after {h0}: mismatch records {sorted(rec)}, expected {sorted(exp_mism)}", case)
         if nontrivial:
             r.outcome((tree, change, f))
-    if change == "none":
-        replacing_loads(item, files, eops, r, label0)
+    if change == "none" or (tree, change) in LOAD_HISTORY_CHANGES:
+        replacing_loads(item, files, refs, eops, r, label0)
     r.sample = {"tree": tree, "change": change, "policy": policy, "new_tree": fn["Kconfig"], "files": len(files), "example_file": files[-1][1]}
     return r
 
 
-def replacing_loads(item, files, eops, r: common.Result, label0: str) -> None:
-    """unchanged tree, one instance loading two files in a row (replace=True): the second load must give what loading the
-    second file without its default-marked entries into a FRESH instance gives -- nothing of the first file survives, and
-    the marked entries of the second pin nothing -- right after the load and after every single further edit"""
+def merge_files(eops, types: Dict[str, str], thorough: bool) -> List[Tuple[Optional[str], Dict[str, Any]]]:
+    """what may be loaded BETWEEN two replacing loads: nothing, or a hand-written one-entry file (an unmarked assignment, as
+    in an sdkconfig.defaults fragment) merged with replace=False -- one file per option the edit alphabet sets (its first
+    value); quick: the first two options, is_main_sdkconfig=False; thorough: all of them, and is_main_sdkconfig True too"""
+    out: List[Tuple[Optional[str], Dict[str, Any]]] = [(None, {})]
+    seen = []
+    for o in eops:
+        if o[0] != "set" or o[1] in seen:
+            continue
+        seen.append(o[1])
+        name, v = o[1], o[2]
+        if v == "n":
+            text = f"# CONFIG_{name} is not set\n"
+        elif types[name] != "string":
+            text = f"CONFIG_{name}={v}\n"
+        else:
+            text = f'CONFIG_{name}="{v}"\n'
+        out.append((text, {"is_main_sdkconfig": False}))
+        if thorough:
+            out.append((text, {"is_main_sdkconfig": True}))
+    return out if thorough else out[:3]
+
+
+def replacing_loads(item, files, refs, eops, r: common.Result, label0: str) -> None:
+    """one instance (new tree) loading several files in a row, the LAST load replacing (replace=True, main sdkconfig):
+         load(g); [merge(m, replace=False, is_main_sdkconfig=False -- thorough: also True)]; load(f); E
+    g: a file written by the tool under the NEW tree (<=1 operation; <=2 in the thorough tier when nothing is merged in
+    between), m: see merge_files(), f: every
+    file of the item (written under the OLD tree).  The last load must give what the item's reference gives for f alone --
+    a FRESH instance (of T_new resp. T_new') that loaded only f without its default-marked entries: nothing of the earlier
+    files survives (no value, no baseline a default-marked entry or a default that refers to the option is compared with),
+    and the marked entries of the last file pin nothing -- right after the load and after every single further edit (with
+    a merge in between: right after the load, quick / every single edit, thorough).  The mismatch records of the last load
+    are those of loading f alone into a fresh instance under the same policy."""
     fn = kgen.render(item["new_prog"])
     policy = item["policy"]
-    d_first = 1 if item["d2"] <= 2 else 2
-    firsts = [(h, t) for h, t in files if len(h) <= d_first]
-    for (hg, g), (hf, f) in itertools.product(firsts, files):
-        if g == f:
+    tree, change = item["tree"], item["change"]
+    thorough = item["d2"] > 2
+    d_first = 2 if thorough else 1
+    if change == "none":
+        firsts = [(h, t) for h, t in files if len(h) <= d_first]
+    else:
+        firsts = reachable_files(fn, eops, d_first)
+    merges = merge_files(eops, {c.name: c.type for c in kgen.configs(item["new_prog"])}, thorough)
+    single_recs: Dict[str, set] = {}
+    for (hg, g), (mtext, mkw), (hf, f) in itertools.product(firsts, merges, files):
+        if g == f or (mtext is not None and len(hg) > 1):
             continue
         fprime = strip_marked(f)
-        for E in [()] + [(o,) for o in eops]:
+        ref_files, ref_policy = refs[f]
+        if f not in single_recs:
+            s0 = impl.Inst(fn, policy=policy)
+            s0.load_text(f)
+            single_recs[f] = record_names(s0.k)
+        edits = [()] + ([(o,) for o in eops] if (mtext is None or thorough) else [])
+        for E in edits:
             r.states += 1
-            r.transitions += 1 + len(E)
+            r.transitions += 1 + len(E) + (mtext is not None)
             r.evals += 1
-            case = {"tree": item["tree"], "change": "none", "policy": policy, "old": item["old"], "new": fn, "saved_after": [list(o) for o in hf], "file": f,
-                    "first_file": g, "first_saved_after": [list(o) for o in hg], "edits": [list(o) for o in E], "d2": item["d2"]}
+            case = {"tree": tree, "change": change, "policy": policy, "old": item["old"], "new": fn, "saved_after": [list(o) for o in hf], "file": f,
+                    "first_file": g, "first_saved_after": [list(o) for o in hg], "merge_file": mtext, "merge_kw": mkw, "edits": [list(o) for o in E], "d2": item["d2"]}
+            hist = f"{label0} load(file saved after {hg})" + (f"; merge({mtext.strip()!r}, replace=False, {mkw})" if mtext is not None else "") + f"; load(file saved after {hf}); edits {E}"
+            sigx = {"change": change, "policy": policy, "merge_between": mtext is not None, **({"merge_main": mkw["is_main_sdkconfig"]} if mtext is not None else {})}
             try:
                 a = impl.Inst(fn, policy=policy)
                 a.load_text(g)
+                if mtext is not None:
+                    a.load_text(mtext, replace=False, **mkw)
                 a.load_text(f)
+                rec = record_names(a.k)
                 for op in E:
                     impl.apply_op(a, op)
                 oa = (a.values(), {s.name: s.visibility for s in a.k.unique_defined_syms}, a.config_text())
             except Exception as e:  # noqa: BLE001
-                r.violation({"kind": "exception", "exc": type(e).__name__, "site": site_of(e), "change": "none", "policy": policy, "second_load": True}, f"{label0} load(file after {hg}); load(file after {hf}); {E}: raised {type(e).__name__}: {e}", case)
+                r.violation({"kind": "exception", "exc": type(e).__name__, "site": site_of(e), "second_load": True, **sigx}, f"{hist}: raised {type(e).__name__}: {e}", case)
                 continue
-            b = impl.Inst(fn, policy="kconfig")
+            b = impl.Inst(ref_files, policy=ref_policy)
             b.load_text(fprime)
             for op in E:
                 impl.apply_op(b, op)
             ob = (b.values(), {s.name: s.visibility for s in b.k.unique_defined_syms}, b.config_text())
             if oa != ob:
                 diff = {k_: (oa[0][k_], ob[0].get(k_)) for k_ in oa[0] if oa[0][k_] != ob[0].get(k_)}
-                r.violation({"kind": "second_load_differs_from_fresh_load", "policy": policy, "after_edits": bool(E), "values_differ": bool(diff)},
-                            f"{label0} load(file saved after {hg}) then load(file saved after {hf}), edits {E}: {diff or line_diff(oa[2], ob[2])} (left) vs loading the second file without marked entries into a fresh instance (right)", case)
+                r.violation({"kind": "second_load_differs_from_fresh_load", "after_edits": bool(E), "values_differ": bool(diff), **sigx},
+                            f"{hist}: {diff or line_diff(oa[2], ob[2])} (left) vs loading the last file without marked entries into a fresh instance (right)", case)
+            if not E and rec != single_recs[f]:
+                r.violation({"kind": "second_load_mismatch_records_differ_from_fresh_load", "missing": sorted(single_recs[f] - rec) != [], "extra": sorted(rec - single_recs[f]) != [], **sigx},
+                            f"{hist}: mismatch records of the last load {sorted(rec)}, loading the last file alone into a fresh instance gives {sorted(single_recs[f])}", case)
 
 
 def kconfig_mismatches(fn, fprime: str, marked) -> set:
@@ -513,6 +633,6 @@ def replay(case) -> List[dict]:
                 continue
             item = {"tree": tname, "change": cname, "old": case["old"], "new_prog": tnew, "policy": case["policy"], "d1": 2, "d2": case["d2"]}
             r = run_item(item)
-            want_file, want_edits, want_first = case["file"], case.get("edits"), case.get("first_file")
-            return [v for v in r.viols if v["case"]["file"] == want_file and v["case"].get("edits") == want_edits and v["case"].get("first_file") == want_first] or r.viols
+            keys = ("file", "edits", "first_file", "merge_file", "merge_kw")
+            return [v for v in r.viols if all(v["case"].get(k_) == case.get(k_) for k_ in keys)] or r.viols
     raise SystemExit("replay: tree/change not found")
